@@ -19,6 +19,15 @@ Proof. exact (known_true_nothrow w b f). Qed.
 Theorem C13_never_throws (cs : list cmd) (f : flags) : ~ In Throws (fst (run cs f)).
 Proof. exact (run_never_throws cs f). Qed.
 
+(* ... and that rests on each of the three tests of have_exogenous_model() placed in front of the partial
+   accessor exogenous_model() (StateModel.cpp:20, Prediction::skip "state" and "exogenous" branches):
+   the same dispatch definitions with any one of them removed throw on a filter without exogenous model *)
+Theorem C13_each_guard_is_needed :
+  fst (filter_skip_g (mkGuards false true true) NPrediction true (init false)) = Throws /\
+  fst (filter_skip_g (mkGuards true false true) NState true (init false)) = Throws /\
+  fst (filter_skip_g (mkGuards true true false) NExogenous true (init false)) = Throws.
+Proof. exact each_guard_is_needed. Qed.
+
 (* every answer to a word made of the four known names is true *)
 Theorem C13_known_word_all_true (cs : list cmd) (f : flags) :
   forallb (fun c => known (fst c)) cs = true -> Forall (fun r => r = Ok true) (fst (run cs f)).
@@ -73,11 +82,13 @@ Section Steps.
 Variable B : Type.
 Variable pstep : kind -> prop_mode -> B -> B -> B.
 Variable cstep : kind -> B -> B -> B.
+Variable same_shape : B -> B -> bool.      (* has the output object handed in the shape of the input *)
+Variable gpf_sliced : B -> B -> B.         (* what GPFPrediction's sliced assignment leaves when it has not *)
 
 (* a skipped step returns its input (the whole object), for every configuration *)
 Theorem C13_skipped_prediction_is_identity (k : kind) (f : flags) (prev old : B) :
-  f_pred f = true -> predict B pstep k f prev old = prev.
-Proof. exact (predict_skipped B pstep k f prev old). Qed.
+  f_pred f = true -> predict B pstep same_shape gpf_sliced k f prev old = prev.
+Proof. exact (predict_skipped B pstep same_shape gpf_sliced k f prev old). Qed.
 
 Theorem C13_skipped_correction_is_identity (k : kind) (f : flags) (pred old : B) :
   f_corr f = true -> correct B cstep k f pred old = pred.
@@ -86,8 +97,8 @@ Proof. exact (correct_skipped B cstep k f pred old). Qed.
 (* after 'prediction on' / 'all on' (resp. 'correction on' / 'all on'), whatever came before *)
 Theorem C13_identity_after_prediction_on (have : bool) (cs : list cmd) (w : name) (k : kind) (prev old : B) :
   w = NPrediction \/ w = NAll ->
-  predict B pstep k (final (cs ++ [(w, true)]) (init have)) prev old = prev.
-Proof. exact (predict_identity_after_on B pstep have cs w k prev old). Qed.
+  predict B pstep same_shape gpf_sliced k (final (cs ++ [(w, true)]) (init have)) prev old = prev.
+Proof. exact (predict_identity_after_on B pstep same_shape gpf_sliced have cs w k prev old). Qed.
 
 Theorem C13_identity_after_correction_on (have : bool) (cs : list cmd) (w : name) (k : kind) (pred old : B) :
   w = NCorrection \/ w = NAll ->
@@ -97,27 +108,55 @@ Proof. exact (correct_identity_after_on B cstep have cs w k pred old). Qed.
 (* whenever the derived rule says "skipping" *)
 Theorem C13_identity_by_rule (have : bool) (cs : list cmd) (k : kind) (prev old : B) :
   last_status state_names false cs && (if have then last_status exo_names false cs else true) = true ->
-  predict B pstep k (final cs (init have)) prev old = prev.
-Proof. exact (predict_identity_by_rule B pstep have cs k prev old). Qed.
+  predict B pstep same_shape gpf_sliced k (final cs (init have)) prev old = prev.
+Proof. exact (predict_identity_by_rule B pstep same_shape gpf_sliced have cs k prev old). Qed.
 
 Theorem C13_correction_identity_by_rule (have : bool) (cs : list cmd) (k : kind) (pred old : B) :
   last_status corr_names false cs = true ->
   correct B cstep k (final cs (init have)) pred old = pred.
 Proof. exact (correct_identity_by_rule B cstep have cs k pred old). Qed.
 
-(* Gaussian steps (KF, UKF, and the one inside a Gaussian-particle prediction) are
-   the identity as soon as the state model is skipped, even while is_skipping() is false *)
+(* KF and UKF steps are the identity as soon as the state model is skipped, even while is_skipping()
+   is false (predictStep's own test; whole-object assignment: any shape of the output object) *)
 Theorem C13_state_skipped_gaussian_identity (k : kind) (f : flags) (prev old : B) :
-  k <> Boot -> f_state f = true -> predict B pstep k f prev old = prev.
-Proof. exact (predict_state_skipped_gaussian B pstep k f prev old). Qed.
+  k = KF \/ k = UKF -> f_state f = true -> predict B pstep same_shape gpf_sliced k f prev old = prev.
+Proof. exact (predict_state_skipped_gaussian B pstep same_shape gpf_sliced k f prev old). Qed.
+
+(* PARTIAL for the Gaussian-particle prediction: identity only under the premise that the output
+   object has the input's shape (GPFPrediction's sliced assignment; what is missing is the case of
+   another shape, where the code leaves an inconsistent object -- next theorem).  Not needed by the
+   property: there the prediction is not "skipped" (is_skipping() is false). *)
+Theorem C13_state_skipped_gpf_identity_partial (f : flags) (prev old : B) :
+  f_state f = true -> same_shape prev old = true -> predict B pstep same_shape gpf_sliced GPF f prev old = prev.
+Proof. exact (predict_state_skipped_gpf B pstep same_shape gpf_sliced f prev old). Qed.
+
+Theorem C13_state_skipped_gpf_other_shape (f : flags) (prev old : B) :
+  f_pred f = false -> f_state f = true -> same_shape prev old = false ->
+  predict B pstep same_shape gpf_sliced GPF f prev old = gpf_sliced prev old.
+Proof. exact (predict_state_skipped_gpf_other_shape B pstep same_shape gpf_sliced f prev old). Qed.
+
+(* per-step reversibility: with the state part (and the exogenous part, if any) switched off again
+   the prediction is that of a never-skipped filter WHATEVER the correction's flag is, and dually *)
+Theorem C13_prediction_restored (have : bool) (cs : list cmd) (k : kind) :
+  last_status state_names false cs = false ->
+  (have = true -> last_status exo_names false cs = false) ->
+  forall prev old,
+    predict B pstep same_shape gpf_sliced k (final cs (init have)) prev old =
+    predict B pstep same_shape gpf_sliced k (init have) prev old.
+Proof. exact (predict_restored B pstep same_shape gpf_sliced have cs k). Qed.
+
+Theorem C13_correction_restored (have : bool) (cs : list cmd) (k : kind) :
+  last_status corr_names false cs = false ->
+  forall pred old, correct B cstep k (final cs (init have)) pred old = correct B cstep k (init have) pred old.
+Proof. exact (correct_restored B cstep have cs k). Qed.
 
 (* reversibility: once everything is off again the flags are those of a fresh
    filter, hence both step functions are (extensionally) those of a never-skipped filter *)
 Theorem C13_reversible (have : bool) (cs : list cmd) (k : kind) :
   all_off (final cs (init have)) ->
-  (forall prev old, predict B pstep k (final cs (init have)) prev old = predict B pstep k (init have) prev old) /\
+  (forall prev old, predict B pstep same_shape gpf_sliced k (final cs (init have)) prev old = predict B pstep same_shape gpf_sliced k (init have) prev old) /\
   (forall pred old, correct B cstep k (final cs (init have)) pred old = correct B cstep k (init have) pred old).
-Proof. exact (reversible B pstep cstep have cs k). Qed.
+Proof. exact (reversible B pstep cstep same_shape gpf_sliced have cs k). Qed.
 
 Theorem C13_all_off_restores_fresh_state (have : bool) (cs : list cmd) :
   final (cs ++ [(NAll, false)]) (init have) = init have.
@@ -128,21 +167,22 @@ Theorem C13_both_off_restores_fresh_state (have : bool) (cs : list cmd) :
 Proof. exact (back_to_init_after_both_off have cs). Qed.
 
 Theorem C13_reversible_all_off (have : bool) (cs : list cmd) (k : kind) :
-  (forall prev old, predict B pstep k (final (cs ++ [(NAll, false)]) (init have)) prev old =
+  (forall prev old, predict B pstep same_shape gpf_sliced k (final (cs ++ [(NAll, false)]) (init have)) prev old =
                     pstep k (if have then MFull else MStateOnly) prev old) /\
   (forall pred old, correct B cstep k (final (cs ++ [(NAll, false)]) (init have)) pred old = cstep k pred old).
-Proof. exact (reversible_all_off B pstep cstep have cs k). Qed.
+Proof. exact (reversible_all_off B pstep cstep same_shape gpf_sliced have cs k). Qed.
 
 (* the only computations a filter driven by skip commands can perform in its
    prediction: identity, full step, state model alone, and (bootstrap only) exogenous part alone;
    the branch of LinearStateModel::propagate that writes nothing is never reached *)
 Theorem C13_reachable_predictions (have : bool) (cs : list cmd) (k : kind) (prev old : B) :
   let f := final cs (init have) in
-  predict B pstep k f prev old = prev \/
-  predict B pstep k f prev old = pstep k MFull prev old \/
-  predict B pstep k f prev old = pstep k MStateOnly prev old \/
-  (k = Boot /\ predict B pstep k f prev old = pstep k MExoOnly prev old).
-Proof. exact (reachable_predict B pstep have cs k prev old). Qed.
+  predict B pstep same_shape gpf_sliced k f prev old = prev \/
+  predict B pstep same_shape gpf_sliced k f prev old = pstep k MFull prev old \/
+  predict B pstep same_shape gpf_sliced k f prev old = pstep k MStateOnly prev old \/
+  (k = Boot /\ predict B pstep same_shape gpf_sliced k f prev old = pstep k MExoOnly prev old) \/
+  (k = GPF /\ same_shape prev old = false /\ predict B pstep same_shape gpf_sliced k f prev old = gpf_sliced prev old).
+Proof. exact (reachable_predict B pstep same_shape gpf_sliced have cs k prev old). Qed.
 End Steps.
 
 (* the propagate modes of this model are the branches of C02's model of
@@ -161,7 +201,8 @@ Proof. reflexivity. Qed.
 Example C13_word_with_exo :
   let f := final [(NState, true); (NCorrection, true)] (init true) in
   f_pred f = false /\ f_state f = true /\ f_exo f = Some false /\ f_corr f = true /\
-  obs_predict KF f = OInput /\ obs_predict Boot f = ORan Boot MExoOnly /\ obs_correct UKF f = OInput /\
+  obs_predict KF f true = OInput /\ obs_predict Boot f false = ORan Boot MExoOnly /\ obs_correct UKF f true = OInput /\
+  obs_predict GPF f false = OInput /\ obs_predict GPF f true = OSliced /\
   all_off (final [(NState, true); (NCorrection, true); (NPrediction, false); (NCorrection, false)] (init true)).
 Proof. repeat split. Qed.
 
@@ -169,11 +210,12 @@ Proof. repeat split. Qed.
    skipped: is_skipping() is false, the step is the state model alone *)
 Example C13_prediction_on_state_off :
   let f := final [(NPrediction, true); (NState, false)] (init true) in
-  f_pred f = false /\ f_exo f = Some true /\ obs_predict KF f = ORan KF MStateOnly /\ ~ all_off f.
+  f_pred f = false /\ f_exo f = Some true /\ obs_predict KF f false = ORan KF MStateOnly /\ ~ all_off f.
 Proof. repeat split; intros (_ & _ & H & _); discriminate H. Qed.
 
 Print Assumptions C13_known_names_true_nothrow.
 Print Assumptions C13_never_throws.
+Print Assumptions C13_each_guard_is_needed.
 Print Assumptions C13_known_word_all_true.
 Print Assumptions C13_exogenous_with_model_true.
 Print Assumptions C13_exogenous_true_after_any_word.
@@ -189,6 +231,10 @@ Print Assumptions C13_identity_after_correction_on.
 Print Assumptions C13_identity_by_rule.
 Print Assumptions C13_correction_identity_by_rule.
 Print Assumptions C13_state_skipped_gaussian_identity.
+Print Assumptions C13_state_skipped_gpf_identity_partial.
+Print Assumptions C13_state_skipped_gpf_other_shape.
+Print Assumptions C13_prediction_restored.
+Print Assumptions C13_correction_restored.
 Print Assumptions C13_reversible.
 Print Assumptions C13_all_off_restores_fresh_state.
 Print Assumptions C13_both_off_restores_fresh_state.
